@@ -149,6 +149,14 @@ def d1_policy(chk: Check) -> None:
     eq_defs = [src(n.value) for n in walk_local(loop[0])
                if isinstance(n, ast.Assign) and
                src(n.targets[0]) == match_var]
+    for _hop in range(3):
+        # a plain copy `flag = other` (e.g. an inlined helper's result)
+        if len(eq_defs) == 1 and eq_defs[0].isidentifier() and \
+                eq_defs[0] != match_var:
+            via = eq_defs[0]
+            eq_defs = [src(n.value) for n in walk_local(loop[0])
+                       if isinstance(n, ast.Assign) and
+                       src(n.targets[0]) == via]
     eq_calls = [n.value for n in walk_local(loop[0])
                 if isinstance(n, ast.Assign) and
                 src(n.targets[0]) == match_var and
